@@ -468,7 +468,7 @@ PROPS = {
  },
  "C09": {
   "modules": ["OsmoVerif.Props.C09", "OsmoVerif.Props.TieGenIncentives"],
-  "min_theorems": 29,
+  "min_theorems": 27,
   "fingerprints": ["Incentives.*"],
   "engines": [{"name": "incentives", "kind": "app", "n": {"quick": 20000, "thorough": 300000}, "shards": {"quick": 4, "thorough": 16}, "env": NO_EXPORT_IMPORT}],
   "rule": "histories = one chain state each: 12 pool-owned empty perpetual gauges (imported as creategauge lines) + random lock gauges (perpetual / 1-6 epochs, "
@@ -490,16 +490,17 @@ PROPS = {
   "assumptions": ["lock-based ByDuration gauges only: NoLock (concentrated-pool) gauges, group gauges / AllocateAcrossGauges and synthetic (superfluid) denoms are out of scope (not modelled, not generated)",
                   "lockable durations exceed 1ms (the per-denom lock cache of getDistributeToBaseLocks holds locks of at least 1ms); MinValueForDistribution is denominated in the base coin unit",
                   "the gauge creator can pay (only the credit to the module account is modelled); sdk.Int 256-bit overflow is not modelled",
-                  "six sub-claims are false for the code and are proved false on witnesses (known findings F19-F21 receiver / finish / spam, F61 zero converted minimum, F62 failing quote, "
-                  "F63 deposit into a finished gauge); the positive theorems carry the exact guard"],
+                  "two sub-claims are false for the code and are proved false on witnesses (known findings F19 receiver, F21 spam rule); the positive theorems carry the exact guard; "
+                  "the former findings F20 / F61 / F62 / F63 are repaired in the repository (fixed: 21bb9c1bc7, af3cbe6371, d4c28ad126) and their clauses are theorems for all inputs; "
+                  "minimum-value quotes are coin amounts (not negative)"],
   "explanation": "for every history (induction over op lists from any configuration): distributed <= coins per gauge and denom; module balance >= remainder of all "
                  "(hence all unfinished) gauges and is debited by exactly what is queued; per processed gauge every qualifying lock gets, per denom, exactly "
-                 "floor(remaining*lockAmt/(lockSum*remainingEpochs)) unless below the minimum / unpriced / zero (exactly the property's clause for every denom whose converted "
-                 "minimum is not 0, and for whole epochs when none is; a denom whose converted minimum IS 0 is paid to the first lock that meets it only), addressed to its "
-                 "reward receiver, and under "
+                 "floor(remaining*lockAmt/(lockSum*remainingEpochs)) unless below the minimum / unpriced / zero - exactly the property's clause, with or without the per-Distribute cache: worth at least the configured minimum "
+                 "converted through the route's pool quote (a zero quote admits every positive share, no route or a pool that cannot quote admits nothing and never fails the "
+                 "epoch) -, addressed to its reward receiver, and under "
                  "consistent receivers every address receives exactly the entries addressed to it; upcoming -> active iff start <= block time; finished gauges are "
-                 "never touched again; finishing happens exactly in the epoch with filled+1 = numEpochs and filled grows by one iff a lock qualifies (PARTIAL: "
-                 "finished => filled = numEpochs is refuted by a witness); failing operations are no-ops. Model tied to the real keepers by differential run.",
+                 "never touched again and reject every top-up; finishing happens exactly in the epoch in which the number of epochs with a qualifying lock reaches numEpochs "
+                 "(finished => filled = numEpochs, FULL); failing operations are no-ops. Model tied to the real keepers by differential run.",
  },
  "C04": {
   "modules": ["OsmoVerif.Props.C04", "OsmoVerif.Props.TieGenGammMath", "OsmoVerif.Props.C02C04", "OsmoVerif.Props.C04Real",
